@@ -219,6 +219,11 @@ let respond (line : String.t) : String.t =
     (match gen_main_items_render (parse_term tdef) (parse_term titems) (kids (parse_term blocks)) with
      | Some g -> show_term g
      | None -> "(NoGen \"\")")
+  | [ "helperitems"; _tdef; titems; blocks ] ->
+    let kids t = match t with Node (_, ks) -> ks in
+    (match gen_helper_items_render (parse_term titems) (kids (parse_term blocks)) with
+     | Some g -> show_term g
+     | None -> "(NoGen \"\")")
   | [ "helpertraits"; tdef; blocks ] ->
     let kids t = match t with Node (_, ks) -> ks in
     (match gen_helper_traits_render (parse_term tdef) (kids (parse_term blocks)) with
